@@ -777,3 +777,11 @@ Example rollout_counters_pins :
    map (fun tr => map (fun e => fst (fst (fst (ev_code e)))) tr) (snd r) =
      [[0; 1; 9; 2; 9; 2; 9; 2; 3; 1; 9; 2; 9; 2; 9; 2; 3; 4]] /\ d_nt (fst r) = 6 /\ d_exh (fst r) = false).
 Proof. vm_compute. repeat split; reflexivity. Qed.
+
+(* the observation function of CheckpointCallback / EvalCallback: one entry (kind, n_calls, num_timesteps, 0) per save / evaluation,
+   after the EvalCallback's best-mean entry (6, 0, best, 1) *)
+Example observe_pairs_pins :
+  pairs_to_entries 7 [(2, 3); (4, 5)] = [mkE 7 2 3 0; mkE 7 4 5 0] /\
+  snd (fst (run_case 1 (OnPol 2) [mkCall 4 true []] (clist [checkpoint 2; eval_ 3 [5; 1] Nop Nop]))) =
+  [(1, 4, 4, []); (4, 4, 4, [(7, 2, 2, 0); (7, 4, 4, 0)]); (3, 4, 4, [(6, 0, 5, 1); (6, 3, 3, 0)])].
+Proof. split; vm_compute; reflexivity. Qed.
